@@ -387,3 +387,64 @@ def exec_pressure_family():
                      '{ goal s0 = new l2.S(); s0.start >= 20.0; goal s1 = new l2.S(); s1.start >= 30.0; }' % f(k)]
                 out.append(('fe_line_%d_%d_%d' % (k, pstart, qdur), ['\n'.join(L) + '\n'], True))
     return out
+
+
+def subclass_family():
+    """C04 / C05: smart types reached through one, two or three levels of user classes, with predicates declared at different
+    levels (for resources: own predicates extending Use); the atoms compete for the instance whatever the depth;
+    (name, parts, None)"""
+    out = []
+    for depth in (1, 2, 3):
+        # reusable resources
+        L = ['class M1 : ReusableResource { M1(real cap) : ReusableResource(cap) {} predicate Op1(real id) : Use { duration >= 1.0; } }']
+        for d in range(2, depth + 1):
+            L.append('class M%d : M%d { M%d(real cap) : M%d(cap) {} predicate Op%d(real id) : Use { duration >= 1.0; } }' % (d, d - 1, d, d - 1, d))
+        for cap, amounts in ((10, (4, 4, 4)), (5, (4, 4, 4)), (5, (3, 2, 4))):
+            for preds in ('leaf', 'mixed', 'use'):
+                P = list(L) + ['M%d m = new M%d(%s);' % (depth, depth, f(cap))]
+                for i, a in enumerate(amounts):
+                    if preds == 'use':
+                        P.append('fact t%d = new m.Use(amount:%s, duration:2.0);' % (i, f(a)))
+                    else:
+                        lvl = depth if preds == 'leaf' else 1 + (i % depth)
+                        P.append('fact t%d = new m.Op%d(id:%s, amount:%s, duration:2.0);' % (i, lvl, f(i), f(a)))
+                P.append('horizon >= 10.0;')
+                out.append(('fs_rr_d%d_c%d_%s_%d' % (depth, cap, preds, len(out)), ['\n'.join(P) + '\n'], None))
+        # state variables
+        S = ['class S1 : StateVariable { predicate A1(real id) { duration >= 2.0; } }']
+        for d in range(2, depth + 1):
+            S.append('class S%d : S%d { predicate A%d(real id) { duration >= 2.0; } }' % (d, d - 1, d))
+        for mode in ('fact', 'goal'):
+            P = list(S) + ['S%d s = new S%d();' % (depth, depth)]
+            for i in range(3):
+                P.append('%s a%d = new s.A%d(id:%s);' % (mode, i, 1 + (i % depth), f(i)))
+            P.append('horizon >= 10.0;')
+            out.append(('fs_sv_d%d_%s' % (depth, mode), ['\n'.join(P) + '\n'], None))
+    return out
+
+
+def impossible_family():
+    """C01 / C03: problems that have no solution by construction because the rule of a goal that must be achieved cannot be
+    applied (a later statement of its body is inconsistent): a parameter of the wrong subtype, an unsatisfiable constraint, a
+    sub-goal whose own rule is inapplicable; with and without an alternative; (name, parts, solvable)"""
+    out = []
+    head = 'class Vehicle {}\nclass Truck : Vehicle {}\nclass Van : Vehicle {}\nTruck truck = new Truck();\nVan van = new Van();\npredicate Loaded(Vehicle v) {}\npredicate Drive(Truck t) {}\npredicate Carry(Vehicle v) {}\n'
+    bodies = {
+        'wrong_subtype': 'goal l = new Loaded(v:v); goal d = new Drive(t:v);',
+        'wrong_subtype_first': 'goal d = new Drive(t:v); goal l = new Loaded(v:v);',
+        'false_constraint': 'goal l = new Loaded(v:v); real z; z >= 1.0; z <= 0.0;',
+        'nested': 'goal l = new Loaded(v:v); goal n = new Inner(v:v);',
+    }
+    for bn, body in bodies.items():
+        for alt in (False, True):
+            for arg, ok_arg in (('van', False), ('truck', True)):
+                L = [head, 'predicate Inner(Vehicle v) { goal d = new Drive(t:v); }']
+                if alt:
+                    L.append('predicate Deliver(Vehicle v) { { %s } or { goal c = new Carry(v:v); } }' % body)
+                else:
+                    L.append('predicate Deliver(Vehicle v) { %s }' % body)
+                L.append('fact lt = new Loaded(v:truck);')
+                L.append('goal dlv = new Deliver(v:%s);' % arg)
+                solvable = alt or (ok_arg and bn != 'false_constraint')
+                out.append(('fz_%s_%s_%s' % (bn, 'alt' if alt else 'only', arg), ['\n'.join(L) + '\n'], solvable))
+    return out
